@@ -137,6 +137,21 @@ def expr(n):
                 raise NoFit("shift count")
             e = "(.%s (%s) %d)" % ("shl" if op == "<<" else "shr", expr(a), sh)
             return "(.trunc %d %s)" % (bits, e) if (op == "<<" and bits < 64) else e
+        if op in ("*", "/", "%"):
+            # exact identities of unsigned arithmetic, applied so that `x * 8`, `i / 64`, `t % 64` are read like the shift /
+            # mask forms: (x * 2^k) mod 2^w = (x << k) mod 2^w,  x / 2^k = x >> k,  x mod 2^k = x & (2^k - 1)
+            cb, ca = const(b), const(a)
+            if op == "*" and cb is None and ca is not None:
+                a, b, cb = b, a, ca
+            if cb is None or cb <= 0 or cb & (cb - 1):
+                raise NoFit("operator %s by a non-power of two" % op)
+            kk = cb.bit_length() - 1
+            if op == "*":
+                e = "(.shl (%s) %d)" % (expr(a), kk)
+                return "(.trunc %d %s)" % (bits, e) if bits < 64 else e
+            if op == "/":
+                return "(.shr (%s) %d)" % (expr(a), kk)
+            return "(.and (%s) (.lit %d))" % (expr(a), cb - 1)
         names = {"+": "add", "-": "sub", "&": "and", "|": "or"}
         if op not in names:
             raise NoFit("operator " + op)
